@@ -1,7 +1,7 @@
 (* Entry points of the executable model: [dispatch O op input] for the extracted driver and for
    evaluation inside Coq. Each operation decodes its input, runs the model and encodes the result. *)
 Require Import Model.Base Model.Expr Model.Simplify Model.Split Model.Trie Model.Overlap
-               Model.LicTok Model.BoolParse Model.Licensing Model.Codec.
+               Model.LicTok Model.BoolParse Model.Licensing Model.Codec Model.History.
 Open Scope Z_scope.
 
 Definition bad_input : data := DL [DI (-1)].
@@ -72,6 +72,36 @@ Definition listings (T : list entry) (e : expr) : data :=
        e_list (fun u => e_list e_atom (unknown_license_symbols T e u)) bb;
        e_list (fun u => e_list e_str (unknown_license_keys T e u)) bb ].
 
+Definition d_nat (d : data) : option nat := match d with DI z => Some (Z.to_nat z) | _ => None end.
+Definition d_hop (d : data) : option History.op :=
+  match d with
+  | DL [DI 0; T] => option_map ONew (d_table T)
+  | DL [DI 1; i; va; st; si; s] =>
+      match d_nat i, d_bool va, d_bool st, d_bool si, d_str s with
+      | Some i, Some va, Some st, Some si, Some s => Some (OParse i va st si s)
+      | _, _, _, _, _ => None
+      end
+  | DL [DI 2; i; h] => match d_nat i, d_nat h with Some i, Some h => Some (OParseExpr i h) | _, _ => None end
+  | DL [DI 3; i; h] => match d_nat i, d_nat h with Some i, Some h => Some (OKeys i h) | _, _ => None end
+  | DL [DI 4; i; h] => match d_nat i, d_nat h with Some i, Some h => Some (OUnknownKeys i h) | _, _ => None end
+  | DL [DI 5; h] => option_map OSimplify (d_nat h)
+  | DL [DI 6; i; h] => match d_nat i, d_nat h with Some i, Some h => Some (ODedup i h) | _, _ => None end
+  | DL [DI 7; i; a; b] => match d_nat i, d_nat a, d_nat b with Some i, Some a, Some b => Some (OEquiv i a b) | _, _, _ => None end
+  | DL [DI 8; i; a; b] => match d_nat i, d_nat a, d_nat b with Some i, Some a, Some b => Some (OContains i a b) | _, _, _ => None end
+  | DL [DI 9; h] => option_map ORender (d_nat h)
+  | _ => None
+  end.
+Definition e_nat (n : nat) : data := DI (Z.of_nat n).
+Definition e_obs (o : obs) : data :=
+  match o with
+  | ObNone => DL [DI 9]
+  | ObNew r => DL [DI 0; e_outcome e_nat r]
+  | ObExpr r => DL [DI 1; e_outcome (e_opt e_nat) r]
+  | ObKeys l => DL [DI 2; e_list e_str l]
+  | ObBool b => DL [DI 3; e_bool b]
+  | ObText s => DL [DI 4; e_str s]
+  end.
+
 Definition dispatch (O : oracle) (op : Z) (d : data) : data :=
   match op, d with
   | 1, DL [a; b] =>
@@ -138,6 +168,12 @@ Definition dispatch (O : oracle) (op : Z) (d : data) : data :=
       match d_expr e with
       | Some e => e_outcome (e_opt e_expr)
                     (combine_parsed (args_of e) (match e with Or _ => OpOr | _ => OpAnd end) (negb (u =? 0)))
+      | None => bad_input
+      end
+  | 17, ops =>
+      match d_list d_hop ops with
+      | Some ops => let '(w, obs) := History.run O History.init ops in
+                    DL [e_list e_obs obs; e_list e_expr (exprs w)]
       | None => bad_input
       end
   | _, _ => bad_input
